@@ -478,6 +478,60 @@ func main() {
 			e.Bool("csNormalizesInvalid", norm, "toLowerIfCaseInsensitive: the case-sensitive branch replaces invalid UTF-8 (same fact as C11's)")
 		}
 
+		// ---- support code on the way in and out: the /_bulk route and the gRPC codec
+		if hf, err := r.Load("proxyapi/http_server.go"); err != nil {
+			e.Missing("bulkRoute", err)
+		} else if fd := hf.Func("ingestorHandler", "ServeHTTP"); fd == nil {
+			e.Missing("bulkRoute", "ingestorHandler.ServeHTTP not found")
+		} else {
+			var route []string
+			ast.Inspect(fd.Body, func(n ast.Node) bool {
+				if is, ok := n.(*ast.IfStmt); ok && strings.Contains(hf.Render(is.Cond), `"/_bulk"`) {
+					for _, st := range is.Body.List {
+						route = append(route, hf.Render(st))
+					}
+				}
+				return true
+			})
+			e.Strs("bulkRoute", route, "ingestorHandler.ServeHTTP: what happens to a /_bulk request (the body reaches the bulk handler unwrapped)")
+			var limiters []string
+			for _, rel := range []string{"proxyapi/http_server.go", "proxyapi/http_bulk.go"} {
+				if f2, err := r.Load(rel); err == nil {
+					ast.Inspect(f2.AST, func(n ast.Node) bool {
+						if c, ok := n.(*ast.CallExpr); ok {
+							fn := f2.Render(c.Fun)
+							if fn == "io.LimitReader" || fn == "http.MaxBytesReader" || strings.HasSuffix(fn, ".LimitReader") || strings.HasSuffix(fn, "MaxBytesReader") {
+								limiters = append(limiters, rel+": "+f2.Render(c))
+							}
+						}
+						return true
+					})
+				}
+			}
+			e.Strs("bulkBodyLimiters", limiters, "readers that cut the request body short in the proxy's HTTP layer")
+		}
+		if vf, err := r.Load("network/grpcutil/vtproto.go"); err != nil {
+			e.Missing("codecMarshal", err)
+		} else if fd := vf.Func("VTProtoCodec", "Marshal"); fd == nil {
+			e.Missing("codecMarshal", "VTProtoCodec.Marshal not found")
+		} else {
+			var rets []string
+			ast.Inspect(fd.Body, func(n ast.Node) bool {
+				if rs, ok := n.(*ast.ReturnStmt); ok && len(rs.Results) > 0 {
+					rets = append(rets, vf.Render(rs.Results[0]))
+				}
+				return true
+			})
+			e.Strs("codecMarshal", rets, "VTProtoCodec.Marshal: what it returns (freshly allocated slices)")
+			pooled := false
+			ast.Inspect(vf.AST, func(n ast.Node) bool {
+				if c, ok := n.(*ast.CallExpr); ok && strings.HasPrefix(vf.Render(c.Fun), "bytespool.") {
+					pooled = true
+				}
+				return true
+			})
+			e.Bool("codecUsesBytesPool", pooled, "network/grpcutil/vtproto.go calls bytespool")
+		}
 		// ---- ID layout: seq.NewID, IngestorMaxInstances
 		if sf, err := r.Load("seq/seq.go"); err != nil {
 			e.Missing("newIDBody", err)
